@@ -763,14 +763,23 @@ class _Walker(object):
                 cnt = self.u16(pos + 2)
                 r = self.u16s(pos + 4, 3 * cnt)
                 total, last = 0, -1
+                spans = []
                 for i in range(cnt):
                     s, e, sci = r[3 * i:3 * i + 3]
                     if s > e or s <= last:
                         self.bad("coverage range %d (%d-%d) out of order" % (i, s, e))
-                    if sci != total:
-                        self.bad("coverage range %d startCoverageIndex %d, expected %d" % (i, sci, total))
+                    spans.append((sci, e - s + 1))
                     total += e - s + 1
                     last = e
+                # the coverage indices of all ranges together are 0..total-1, each once (they
+                # need not grow with the glyph ids: a coverage may be stored in another order)
+                nxt = 0
+                for sci, ln in sorted(spans):
+                    if sci != nxt:
+                        self.bad("coverage ranges do not number the coverage indices N..N exactly once (index %d, expected %d)" % (sci, nxt))
+                    nxt += ln
+                if spans != sorted(spans):
+                    self.stats["Coverage.unsorted-indices"] += 1
                 res = total
             else:
                 self.bad("coverage format %d" % fmt)
